@@ -129,6 +129,37 @@ def check_region(ctx, case, L, region, pts, use_flags, light=False):
                                                                   "pt": [pts[i] for i in diff[:3]]}, mini(diff[0]) if diff else None)
         if not in_place and cat.event_count != len(pts):
             ctx.violation("filter_spatial_mutated_source", None)
+    # sub-catalogs: the decision per event does not depend on which other events are in the catalog (all events inside the
+    # bounding box, single events, only masked events)
+    bb = call(region.get_bbox)
+    subsets = []
+    if bb.ok:
+        x0, x1, y0, y1 = [float(v) for v in bb.value]
+        inside_box = [i for i in range(len(pts)) if x0 < pts[i][0] < x1 and y0 < pts[i][1] < y1]
+        if inside_box:
+            subsets.append(("inside_bbox", inside_box))
+    if ma:
+        subsets.append(("only_masked", ma[::max(1, len(ma) // 40)]))
+        inner = [i for i in ma if cls[i][1] == set() and bb.ok and x0 < pts[i][0] < x1 and y0 < pts[i][1] < y1]
+        for i in inner[:3]:
+            subsets.append(("single_masked_inside_bbox", [i]))
+    if un:
+        subsets.append(("single_unmasked", [un[len(un) // 2]]))
+    for name, sub in subsets:
+        cat = CSEPCatalog(data=[events[i] for i in sub])
+        o = call(cat.filter_spatial, region, in_place=False)
+        if not o.ok:
+            ctx.unexpected(o, "filter_spatial:" + name)
+            continue
+        kept = [int(t) for t in o.value.get_epoch_times()]
+        want_kept = [i for i in sub if not masked[i]]
+        ctx.count("filter_spatial_subset:" + name)
+        if any(masked[i] for i in sub):
+            ctx.count("filter_spatial_subset_with_masked:" + name)
+        if kept != want_kept:
+            diff = sorted(set(kept) ^ set(want_kept))
+            ctx.violation("filter_spatial_subset_disagrees_with_mask", {"subset": name, "n": len(sub), "first": diff[:3], "pt": [pts[i] for i in diff[:3]]},
+                          mini(diff[0]) if diff else None)
     if idx is not None:
         # duplicates: every third unmasked point twice
         ev2 = [events[i] for i in un] + [events[i] for i in un[::3]]
